@@ -84,7 +84,7 @@ Print Assumptions C17_snapshot.
    above quantify over timelines WITH such events, and none of them ever causes an upload. *)
 Theorem C17_unchanged_events_ignored : forall tl extra,
   (forall e, In e extra -> snd e = false) ->
-  backup_run {| writes := writes tl ++ extra; script := script tl; cancel := cancel tl |} = backup_run tl.
+  backup_run {| writes := writes tl ++ extra; script := script tl; cancel := cancel tl; read_faults := read_faults tl |} = backup_run tl.
 Proof. exact run_ignores_unchanged. Qed.
 Print Assumptions C17_unchanged_events_ignored.
 
@@ -132,6 +132,19 @@ Theorem C17_first_round_uploads : forall tl,
 Proof. exact first_round_uploads. Qed.
 Print Assumptions C17_first_round_uploads.
 
+(* a failing READ of the database file at a backup instant (moved aside, a directory in its
+   place, EIO ...): the attempt is made iff the generation differs (C17_change_driven), but
+   nothing is sent - no object at all, so no empty or partial one -, it is not acknowledged,
+   lastWriteGen does not advance, and the next iteration, one period later, tries again *)
+Theorem C17_read_failure : forall tl its x, backup_run tl = Some (its, x) ->
+  forall pre it post a, its = pre ++ it :: post -> i_up it = Some a ->
+  a_sent a = negb (read_fails (read_faults tl) (i_t it))
+  /\ (a_sent a = false ->
+      a_ok a = false /\ a_end a = a_t a /\ lastok 0 (pre ++ [it]) = lastok 0 pre
+      /\ (forall it2 post', post = it2 :: post' -> i_up it2 <> None /\ i_t it2 = i_t it + period)).
+Proof. exact run_read_failure. Qed.
+Print Assumptions C17_read_failure.
+
 (* the monitors evaluated on the observed log mean what they say *)
 Theorem C17_monitor_bytes_sound : forall l last, mon_bytes last l = true ->
   forall pre b1 mid b2 post, l = pre ++ (true, b1) :: mid ++ (true, b2) :: post ->
@@ -154,11 +167,11 @@ Print Assumptions C17_monitor_change_sound.
 (* writes at 36.5 s, 40.5 s and 400.5 s, a write whose save fails at 100.3 s, reads at 200.4 s; the second upload fails, the third takes 70 s with a
    write racing it; cancelled at 1000.7 s *)
 Definition demo : timeline :=
-  {| writes := [(36500, true); (40500, true); (100300, false); (200400, false); (400500, true)]; script := [U 0 true 0; U 2000 false 0; U 70000 true 1]; cancel := 1000700 |}.
+  {| writes := [(36500, true); (40500, true); (100300, false); (200400, false); (400500, true)]; script := [U 0 true 0; U 2000 false 0; U 70000 true 1]; cancel := 1000700; read_faults := [] |}.
 
 Example demo_run :
   match backup_run demo with
-  | Some (its, x) => (map obs_of (attempts its), length its, x)
+  | Some (its, x) => (map obs_of (sent its), length its, x)
   | None => ([], 0%nat, 0)
   end = ([(0, 1, true); (60000, 3, false); (122000, 3, true); (252000, 4, true); (432000, 5, true)], 16%nat, 1000700).
 Proof. vm_compute. reflexivity. Qed.
@@ -167,7 +180,7 @@ Example demo_accepted :
   Run_C17.check (Sc [] [EPut 36500 true [x6b] 1; EPut 40500 true [x6b] 2; EPut 100300 false [x6b] 3; EPut 400500 true [x6b] 4]
                     [200400] [U 0 true 0; U 2000 false 0; U 70000 true 1] 1000700
                     [(0, 1, true); (60000, 3, false); (122000, 3, true); (252000, 4, true); (432000, 5, true)]
-                    [1; 2; 2; 3; 4] (Some 1000700) 5 1 4) = true.
+                    [1; 2; 2; 3; 4] (Some 1000700) 5 1 4 []) = true.
 Proof. vm_compute. reflexivity. Qed.
 
 (* an upload every minute although nothing changed: rejected by the change monitor *)
@@ -181,11 +194,11 @@ Example bad_body_rejected : mon_snapshot [36500] 0 [(0, 0, true)] = false /\ mon
 Proof. vm_compute. auto. Qed.
 (* no retry after a failure / a task that outlives its context: rejected by the comparison *)
 Example no_retry_rejected :
-  Run_C17.check (Sc [] [] [] [U 0 false 0] 200700 [(0, 1, false)] [1] (Some 200700) 1 0 1) = false.
+  Run_C17.check (Sc [] [] [] [U 0 false 0] 200700 [(0, 1, false)] [1] (Some 200700) 1 0 1 []) = false.
 Proof. vm_compute. reflexivity. Qed.
 Example late_exit_rejected :
-  Run_C17.check (Sc [] [] [] [] 200700 [(0, 1, true)] [1] (Some 240000) 1 0 1) = false
-  /\ Run_C17.check (Sc [] [] [] [] 200700 [(0, 1, true)] [1] None 1 0 1) = false.
+  Run_C17.check (Sc [] [] [] [] 200700 [(0, 1, true)] [1] (Some 240000) 1 0 1 []) = false
+  /\ Run_C17.check (Sc [] [] [] [] 200700 [(0, 1, true)] [1] None 1 0 1 []) = false.
 Proof. vm_compute. auto. Qed.
 
 (* the generation counter advanced by a save that FAILED (at 100.3 s): the task uploads the
@@ -194,9 +207,9 @@ Proof. vm_compute. auto. Qed.
 Example unchanged_bytes_rejected : mon_bytes None [(true, 1); (false, 2); (true, 1)] = false.
 Proof. vm_compute. reflexivity. Qed.
 Example failed_save_bumped_generation_rejected :
-  Run_C17.check (Sc [] [EPut 100300 false [x6b] 1] [] [] 300700 [(0, 1, true); (120000, 1, true)] [1; 1] (Some 300700) 2 0 1) = false
-  /\ Run_C17.check (Sc [] [EPut 100300 false [x6b] 1] [] [] 300700 [(0, 1, true)] [1] (Some 300700) 2 0 1) = false
-  /\ Run_C17.check (Sc [] [EPut 100300 false [x6b] 1] [] [] 300700 [(0, 1, true)] [1] (Some 300700) 1 0 1) = true.
+  Run_C17.check (Sc [] [EPut 100300 false [x6b] 1] [] [] 300700 [(0, 1, true); (120000, 1, true)] [1; 1] (Some 300700) 2 0 1 []) = false
+  /\ Run_C17.check (Sc [] [EPut 100300 false [x6b] 1] [] [] 300700 [(0, 1, true)] [1] (Some 300700) 2 0 1 []) = false
+  /\ Run_C17.check (Sc [] [EPut 100300 false [x6b] 1] [] [] 300700 [(0, 1, true)] [1] (Some 300700) 1 0 1 []) = true.
 Proof. vm_compute. auto. Qed.
 
 (* which calls are writes: put 1, put 2 (new version), put 2 again (same bytes: NOT a write),
@@ -215,9 +228,9 @@ Proof. vm_compute. reflexivity. Qed.
    three times over: by the comparison, by the final generation, by the bytes at the end *)
 Example delete_version_last_write :
   let evs := [EPut 10500 true [x6b] 1; EPut 20500 true [x6b] 2; EDelV 70500 true [x6b] 2] in
-  Run_C17.check (Sc [] evs [] [] 400700 [(0, 1, true); (60000, 3, true); (120000, 4, true)] [1; 2; 3] (Some 400700) 4 0 3) = true
-  /\ Run_C17.check (Sc [] evs [] [] 400700 [(0, 1, true); (60000, 3, true)] [1; 2] (Some 400700) 3 0 0) = false
-  /\ Run_C17.check (Sc [] evs [] [] 400700 [(0, 1, true); (60000, 3, true); (120000, 4, true)] [1; 2; 3] (Some 400700) 4 0 2) = false.
+  Run_C17.check (Sc [] evs [] [] 400700 [(0, 1, true); (60000, 3, true); (120000, 4, true)] [1; 2; 3] (Some 400700) 4 0 3 []) = true
+  /\ Run_C17.check (Sc [] evs [] [] 400700 [(0, 1, true); (60000, 3, true)] [1; 2] (Some 400700) 3 0 0 []) = false
+  /\ Run_C17.check (Sc [] evs [] [] 400700 [(0, 1, true); (60000, 3, true); (120000, 4, true)] [1; 2; 3] (Some 400700) 4 0 2 []) = false.
 Proof. vm_compute. auto. Qed.
 
 (* a restart: the file was written in an earlier lifetime (put 1, put 2 on k), the process opens
@@ -226,10 +239,10 @@ Proof. vm_compute. auto. Qed.
    classified from the state the first lifetime left (version 2 exists: a write) *)
 Example restart_uploads_at_first_round :
   let prior := [EPut 0 true [x6b] 1; EPut 0 true [x6b] 2] in
-  Run_C17.check (Sc prior [] [] [] 300700 [(0, 1, true)] [1] (Some 300700) 1 0 1) = true
-  /\ Run_C17.check (Sc prior [] [] [] 300700 [] [] (Some 300700) 1 0 0) = false
-  /\ Run_C17.check (Sc prior [EDelV 70500 true [x6b] 2] [] [] 300700 [(0, 1, true); (120000, 2, true)] [1; 2] (Some 300700) 2 0 2) = true
-  /\ Run_C17.check (Sc [] [EDelV 70500 true [x6b] 2] [] [] 300700 [(0, 1, true); (120000, 2, true)] [1; 2] (Some 300700) 2 0 2) = false.
+  Run_C17.check (Sc prior [] [] [] 300700 [(0, 1, true)] [1] (Some 300700) 1 0 1 []) = true
+  /\ Run_C17.check (Sc prior [] [] [] 300700 [] [] (Some 300700) 1 0 0 []) = false
+  /\ Run_C17.check (Sc prior [EDelV 70500 true [x6b] 2] [] [] 300700 [(0, 1, true); (120000, 2, true)] [1; 2] (Some 300700) 2 0 2 []) = true
+  /\ Run_C17.check (Sc [] [EDelV 70500 true [x6b] 2] [] [] 300700 [(0, 1, true); (120000, 2, true)] [1; 2] (Some 300700) 2 0 2 []) = false.
 Proof. vm_compute. auto. Qed.
 
 (* the task as wired by server.New: first upload at start-up, the write at 1.5 s uploaded one
@@ -237,8 +250,21 @@ Proof. vm_compute. auto. Qed.
    context that was already over when the task started) is rejected, and so is an upload after
    the context ended at 2.7 s *)
 Example wiring_observed :
-  Run_C17.check (ScW [] [EPut 1500 true [x6b] 1] [] 61700 [(0, 1, true); (60000, 2, true)] [1; 2] 2 2) = true
-  /\ Run_C17.check (ScW [] [EPut 1500 true [x6b] 1] [] 61700 [] [] 2 0) = false
-  /\ Run_C17.check (ScW [] [EPut 1500 true [x6b] 1] [] 2700 [(0, 1, true); (60000, 2, true)] [1; 2] 2 2) = false
-  /\ Run_C17.check (ScW [] [EPut 1500 true [x6b] 1] [] 2700 [(0, 1, true)] [1] 2 1) = true.
+  Run_C17.check (ScW [] [EPut 1500 true [x6b] 1] [] 61700 [(0, 1, true); (60000, 2, true)] [1; 2] 2 2 []) = true
+  /\ Run_C17.check (ScW [] [EPut 1500 true [x6b] 1] [] 61700 [] [] 2 0 []) = false
+  /\ Run_C17.check (ScW [] [EPut 1500 true [x6b] 1] [] 2700 [(0, 1, true); (60000, 2, true)] [1; 2] 2 2 []) = false
+  /\ Run_C17.check (ScW [] [EPut 1500 true [x6b] 1] [] 2700 [(0, 1, true)] [1] 2 1 []) = true.
+Proof. vm_compute. auto. Qed.
+
+(* the file is unreadable around 60 s (moved aside from 59.999 s to 60.001 s) when the write of
+   36.5 s is due: no request at 60 s, the upload comes at 120 s.  A run that sends an (empty)
+   object at 60 s and never retries, and one that sends nothing but never retries either, are
+   rejected; so is an unreadable file at start-up answered with an empty object *)
+Example read_fault_retried :
+  let evs := [EPut 36500 true [x6b] 1] in
+  Run_C17.check (Sc [] evs [] [] 300700 [(0, 1, true); (120000, 2, true)] [1; 2] (Some 300700) 2 0 2 [(59999, 60001)]) = true
+  /\ Run_C17.check (Sc [] evs [] [] 300700 [(0, 1, true); (60000, 0, true)] [1; 2] (Some 300700) 2 0 0 [(59999, 60001)]) = false
+  /\ Run_C17.check (Sc [] evs [] [] 300700 [(0, 1, true)] [1] (Some 300700) 2 0 0 [(59999, 60001)]) = false
+  /\ Run_C17.check (Sc [] [] [] [] 300700 [(60000, 1, true)] [1] (Some 300700) 1 0 1 [(0, 1)]) = true
+  /\ Run_C17.check (Sc [] [] [] [] 300700 [(0, 0, true)] [1] (Some 300700) 1 0 0 [(0, 1)]) = false.
 Proof. vm_compute. auto. Qed.
